@@ -5,6 +5,7 @@
    rate term (first term of the t^1 series, B = C = 0) and sum' runs over all the other
    terms; hence S is strictly increasing on [-M, M] as soon as that sum is below A*. *)
 From Coq Require Import Reals ZArith List Bool Lra Lia Psatz.
+#[local] Set Warnings "-ambiguous-paths".
 From Coquelicot Require Import Coquelicot.
 From PyLib Require Import PyVal Ideal.
 From Proofs.C07 Require Import C07_lib.
@@ -139,4 +140,44 @@ Proof.
     assert (0 < sumR (ddterms c 0 T)) by lra.
     assert (0 < sumR (ddterms c 0 T) * (t2 - t1)) by (apply Rmult_lt_0_compat; lra).
     lra.
+Qed.
+
+(* ---- amplitude envelope of the series itself (latitude, radius vector) ---- *)
+Fixpoint abound (M : R) (i : nat) (T : list (list term)) : R :=
+  match T with
+  | [] => 0
+  | s :: T' => sumR (map (fun x => Rabs (tA x) * M ^ i) s) + abound M (S i) T'
+  end.
+
+Lemma aterm_bound t M i x : Rabs t <= M ->
+  Rabs (tA x * t ^ i * cos (tB x + tC x * t)) <= Rabs (tA x) * M ^ i.
+Proof.
+  intro H. rewrite !Rabs_mult. rewrite Rmult_assoc. apply Rmult_le_compat_l; [apply Rabs_pos|].
+  rewrite <- (Rmult_1_r (M ^ i)).
+  apply Rmult_le_compat; [apply Rabs_pos | apply Rabs_pos | apply pow_abs_le; exact H |].
+  pose proof (COS_bound (tB x + tC x * t)). apply Rabs_le; lra.
+Qed.
+
+Theorem dterms_bound T : forall i t M, Rabs t <= M -> Rabs (sumR (dterms t i T)) <= abound M i T.
+Proof.
+  induction T as [|s T IH]; intros i t M H; simpl.
+  - rewrite Rabs_R0. lra.
+  - rewrite sumR_app. eapply Rle_trans; [apply Rabs_triang|].
+    apply Rplus_le_compat; [|apply IH; exact H].
+    induction s as [|x s IHs]; simpl.
+    + rewrite Rabs_R0. lra.
+    + eapply Rle_trans; [apply Rabs_triang|]. apply Rplus_le_compat; [apply aterm_bound; exact H | exact IHs].
+Qed.
+
+Theorem direct_sum_envelope T t M : Rabs t <= M -> Rabs (direct_sum t T) <= abound M 0 T.
+Proof. apply dterms_bound. Qed.
+
+(* around the constant term (first term of the t^0 series, B = C = 0): the mean distance *)
+Theorem direct_sum_envelope_const x0 s0 rest t M : tB x0 = 0 -> tC x0 = 0 -> Rabs t <= M ->
+  Rabs (direct_sum t ((x0 :: s0) :: rest) - tA x0) <= abound M 0 (s0 :: rest).
+Proof.
+  intros HB HC H.
+  replace (direct_sum t ((x0 :: s0) :: rest) - tA x0) with (direct_sum t (s0 :: rest)).
+  - apply direct_sum_envelope. exact H.
+  - unfold direct_sum. simpl. rewrite HB, HC. rewrite Rmult_0_l, Rplus_0_l, cos_0. ring.
 Qed.
